@@ -21,13 +21,13 @@ end
 mutual
 theorem deepcopyV_spec : ∀ (v : CVal) (n : Nat), NoDetached v →
     ∃ v' n', deepcopyV n v = .ok (v', n') ∧ n ≤ n' ∧ (∀ i ∈ ids v', n ≤ i ∧ i < n') ∧ norm v' = norm v
-  | .leaf a, n, _ => ⟨_, n, rfl, Nat.le_refl _, by simp [ids], by simp [norm]⟩
+  | .leaf a, n, _ => ⟨_, n + 1, rfl, Nat.le_succ _, by simp [ids], by simp [norm]⟩
   | .node k i b keys kids, n, h => by
     simp only [NoDetached] at h
     obtain ⟨kids', n', h1, h2, h3, h4⟩ := deepcopyL_spec kids (n + 1) h.2
-    have hn : (keys.map Leaf.copied).map Leaf.norm = keys.map Leaf.norm := by
+    have hn : (keys.map (Leaf.copiedAt n)).map Leaf.norm = keys.map Leaf.norm := by
       rw [List.map_map]; apply List.map_congr_left; intro a _; simp
-    have idsok : ∀ b', ∀ j ∈ ids (CVal.node k n b' (keys.map Leaf.copied) kids'), n ≤ j ∧ j < n' := by
+    have idsok : ∀ b', ∀ j ∈ ids (CVal.node k n b' (keys.map (Leaf.copiedAt n)) kids'), n ≤ j ∧ j < n' := by
       intro b' j hj
       simp only [ids, List.mem_cons] at hj
       rcases hj with rfl | hj
@@ -35,14 +35,14 @@ theorem deepcopyV_spec : ∀ (v : CVal) (n : Nat), NoDetached v →
       · have := h3 j hj; omega
     cases b with
     | plain =>
-      exact ⟨.node k n .plain (keys.map Leaf.copied) kids', n', by simp [deepcopyV, h1], by omega, idsok _,
+      exact ⟨.node k n .plain (keys.map (Leaf.copiedAt n)) kids', n', by simp [deepcopyV, h1], by omega, idsok _,
         by simp [norm, h4, hn]⟩
     | detached via => exact absurd rfl (h.1 via)
     | ownerless sh =>
-      exact ⟨.node k n (.ownerless sh) (keys.map Leaf.copied) kids', n', by simp [deepcopyV, h1], by omega,
+      exact ⟨.node k n (.ownerless sh) (keys.map (Leaf.copiedAt n)) kids', n', by simp [deepcopyV, h1], by omega,
         idsok _, by simp [norm, h4, hn]⟩
     | bound o sh =>
-      exact ⟨.node k n (.ownerless sh) (keys.map Leaf.copied) kids', n', by simp [deepcopyV, h1], by omega,
+      exact ⟨.node k n (.ownerless sh) (keys.map (Leaf.copiedAt n)) kids', n', by simp [deepcopyV, h1], by omega,
         idsok _, by simp [norm, h4, hn]⟩
 theorem deepcopyL_spec : ∀ (l : List CVal) (n : Nat), NoDetachedL l →
     ∃ l' n', deepcopyL n l = .ok (l', n') ∧ n ≤ n' ∧ (∀ i ∈ idsL l', n ≤ i ∧ i < n') ∧ normL l' = normL l
@@ -92,7 +92,7 @@ theorem deepcopyV_valid {E : Env} (hC : CopyStable E) {sh : Shape} {v : CVal} (h
     intro n v' n' h
     simp only [deepcopyV] at h
     cases h
-    exact .leaf (hC _ _ ha)
+    exact .leaf (hC _ _ n ha)
   | node hlen hkeys _ ih =>
     intro n v' n' h
     rename_i k kT iT lo hi i b keys kids _
@@ -101,13 +101,13 @@ theorem deepcopyV_valid {E : Env} (hC : CopyStable E) {sh : Shape} {v : CVal} (h
     · cases h
     · rename_i kids' n2 hk
       have hm := deepcopyL_mem kids (n + 1) kids' n2 hk
-      have hv : ∀ b', Valid E (.cont k kT iT lo hi) (.node k n b' (keys.map Leaf.copied) kids') := by
+      have hv : ∀ b', Valid E (.cont k kT iT lo hi) (.node k n b' (keys.map (Leaf.copiedAt n)) kids') := by
         intro b'
         refine .node ?_ ?_ ?_
         · intro hc; rw [hm.1]; exact hlen hc
         · intro key hk'
           obtain ⟨a, ha, rfl⟩ := List.mem_map.mp hk'
-          exact hC _ _ (hkeys a ha)
+          exact hC _ _ n (hkeys a ha)
         · intro kid' hk'
           obtain ⟨kid, h1, m, m', h2⟩ := hm.2 kid' hk'
           exact ih kid h1 m kid' m' h2
@@ -306,9 +306,9 @@ theorem E0_idem : Idem E0 := by
   | succ t => simp_all [E0, lv0]
 
 theorem E0_copyStable : CopyStable E0 := by
-  intro t a h
+  intro t a n h
   cases t with
-  | zero => cases a <;> simp [E0, lv0, Leaf.copied] at h ⊢
+  | zero => cases a <;> simp [E0, lv0, Leaf.copiedAt] at h ⊢
   | succ t => simp [E0, lv0]
 
 end TraitsVerif.Lemmas.Persist
